@@ -196,11 +196,16 @@ def qualify(name):
 
 
 def run_harness(crate_dir, target_dir, name, timeout_s, mem_gb, log_path,
-                memsafe=False, playback=None, extra=None, unwind=None, fs=4096):
+                memsafe=False, playback=None, extra=None, unwind=None, fs=4096, reach=False):
     """One cargo-kani process for one harness (exact name match)."""
     cmd = ["cargo", "kani", "-Z", "stubbing", "--harness", qualify(name), "--exact", "--target-dir", target_dir]
     if not memsafe:
         cmd += ["--no-memory-safety-checks"]
+    # Kani's per-assertion reachability checks add one cover goal per assertion
+    # (~1000 per harness) and CBMC builds a trace for each satisfied goal: 5x the
+    # run time.  Vacuity is guarded by the explicit kani::cover! witnesses instead.
+    if not reach:
+        cmd += ["--no-assertion-reach-checks"]
     if playback:
         cmd += ["-Z", "concrete-playback", "--concrete-playback=" + playback]
     if unwind:
